@@ -8,7 +8,7 @@
 (*   (b) prints one JSON record per expanded state: the oracle data the    *)
 (*       Rust replayer compares the real library against.                  *)
 (***************************************************************************)
-EXTENDS Text, RulesImpl, Json
+EXTENDS San, RulesImpl, Json
 
 CONSTANTS
   Family,     \* which set of start positions (see Stages / RootFens)
@@ -47,16 +47,16 @@ StageSquares(i, b) ==
         (CASE i = 1 -> RankSet(1) \cap FilesOf(PusherFiles)                 \* P
            [] i = 2 -> {t \in RankSet(3) : \E s \in Where(b, "P") : Abs(FileOf(s) - FileOf(t)) = 1}  \* p
            [] i = 3 -> IF Family = "EPw" THEN Squares
-                       ELSE AlignedWith({s + 16 : s \in Where(b, "P")} \cup Where(b, "p"))   \* k: capturer's king
+                       ELSE AlignedWith({s + 16 : s \in Where(b, "P")} \cup Where(b, "p") \cup Where(b, "P"))   \* k: capturer's king
            [] i = 4 -> IF Family = "EPw" THEN Squares ELSE (IF Sub = 0 THEN {0, 7, 56, 63, 26, 29} ELSE {0, 63})   \* K
-           [] i = 5 -> AlignedWith({s + 16 : s \in Where(b, "P")} \cup Where(b, "p")))        \* white slider
+           [] i = 5 -> AlignedWith({s + 16 : s \in Where(b, "P")} \cup Where(b, "p") \cup Where(b, "P")))   \* white slider
     [] Family \in {"EPb","EPXb"} ->        \* Black pushes, White captures
         (CASE i = 1 -> RankSet(6) \cap FilesOf(PusherFiles)
            [] i = 2 -> {t \in RankSet(4) : \E s \in Where(b, "p") : Abs(FileOf(s) - FileOf(t)) = 1}
            [] i = 3 -> IF Family = "EPb" THEN Squares
-                       ELSE AlignedWith({s - 16 : s \in Where(b, "p")} \cup Where(b, "P"))
+                       ELSE AlignedWith({s - 16 : s \in Where(b, "p")} \cup Where(b, "P") \cup Where(b, "p"))
            [] i = 4 -> IF Family = "EPb" THEN Squares ELSE (IF Sub = 0 THEN {0, 7, 56, 63, 34, 37} ELSE {0, 63})
-           [] i = 5 -> AlignedWith({s - 16 : s \in Where(b, "p")} \cup Where(b, "P")))
+           [] i = 5 -> AlignedWith({s - 16 : s \in Where(b, "p")} \cup Where(b, "P") \cup Where(b, "p")))
     [] Family = "CASTLE" -> IF i <= 6 THEN {<<4, 0, 7, 60, 56, 63>>[i]} ELSE Squares
     [] Family \in {"EP2w", "EP2b"} ->  \* two capturers flanking the pusher, a slider aligned with them (built for White pushing; EP2b is its mirror)
         (CASE i = 1 -> RankSet(1) \cap FilesOf(IF Sub = 0 THEN 1..6 ELSE {((Sub - 1) % 6) + 1})       \* P on files b..g
@@ -65,6 +65,18 @@ StageSquares(i, b) ==
            [] i = 4 -> AlignedWith(Where(b, "p"))                                                       \* k
            [] i = 5 -> {0, 63}                                                                          \* K
            [] i = 6 -> AlignedWith(Where(b, "p") \cup {q + 16 : q \in Where(b, "P")}))                 \* white slider
+    [] Family \in {"ROOKCAPw", "ROOKCAPb"} ->   \* an enemy king next to a home rook that still carries its right (built for White capturing)
+        (CASE i = 1 -> {60}                    \* k e8
+           [] i = 2 -> {56, 63}                \* r a8 / h8
+           [] i = 3 -> Squares)                \* K
+    [] Family \in {"EPRRw", "EPRRb"} ->   \* capturer's king on the rank of the pawns, two enemy rooks/queens: one on that rank, one on a line of the king
+        (CASE i = 1 -> RankSet(1) \cap FilesOf(PusherFiles)                                                     \* P
+           [] i = 2 -> {t \in RankSet(3) : \E q \in Where(b, "P") : Abs(FileOf(q) - FileOf(t)) = 1}          \* p
+           [] i = 3 -> RankSet(3)                                                                                \* k
+           [] i = 4 -> {0, 63}                                                                                   \* K
+           [] i = 5 -> RankSet(3)                                                                                \* first slider, on the rank
+           [] i = 6 -> LET k == CHOOSE q \in Squares : b[q] = "k"
+                       IN FileSet(FileOf(k)) \cup RankSet(RankOf(k)))                                          \* second slider, on a line of the king
     [] Family = "EPALLw" ->     \* every file: White pushes, Black captures, kings on a few far squares
         (CASE i = 1 -> RankSet(1)
            [] i = 2 -> {t \in RankSet(3) : \E q \in Where(b, "P") : Abs(FileOf(q) - FileOf(t)) = 1}
@@ -98,6 +110,8 @@ StageMen ==
     [] Family = "EPw" -> << {"P"}, {"p"}, {"k"}, {"K"} >>
     [] Family = "EPb" -> << {"p"}, {"P"}, {"K"}, {"k"} >>
     [] Family \in {"EP2w", "EP2b"} -> << {"P"}, {"p"}, {"p"}, {"k"}, {"K"}, {"R","B","Q"} >>
+    [] Family \in {"ROOKCAPw", "ROOKCAPb"} -> << {"k"}, {"r"}, {"K"} >>
+    [] Family \in {"EPRRw", "EPRRb"} -> << {"P"}, {"p"}, {"k"}, {"K"}, {"R", "Q"}, {"R", "Q"} >>
     [] Family = "EPALLw" -> << {"P"}, {"p"}, {"k"}, {"K"} >>
     [] Family = "EPALLb" -> << {"p"}, {"P"}, {"K"}, {"k"} >>
     [] Family = "EPXw" -> << {"P"}, {"p"}, {"k"}, {"K"}, {"R","B","Q"} >>
@@ -110,16 +124,17 @@ StageMen ==
     [] OTHER -> << >>
 NStages == Len(StageMen)
 
-MirroredFamilies == {"PINb", "EP2b"}     \* built with White's men, then colour-mirrored
+MirroredFamilies == {"PINb", "EP2b", "ROOKCAPb", "EPRRb"}     \* built with White's men, then colour-mirrored
 
 StmChoices ==
-  CASE Family \in {"EPw","EPXw","EPALLw","EP2w","EP2b"} -> {"w"}
+  CASE Family \in {"EPw","EPXw","EPALLw","EP2w","EP2b","ROOKCAPw","ROOKCAPb","EPRRw","EPRRb"} -> {"w"}
     [] Family \in {"EPb","EPXb","EPALLb"} -> {"b"}
     [] Family \in {"PINw","PINb"} -> {"w"}
     [] OTHER -> {"w","b"}
 
 RightsChoices(b) ==
-  IF Family = "CASTLE"
+  IF Family \in {"ROOKCAPw", "ROOKCAPb"} THEN {IF b[63] = "r" THEN {"k"} ELSE {"q"}}
+  ELSE IF Family = "CASTLE"
   THEN (IF Sub = 0 THEN SUBSET {"K","Q","k","q"}
         ELSE {{"K","Q","k","q"}, {"K","q"}, {"Q","k"}, {"Q"}, {"k"}})
   ELSE {{}}
@@ -164,7 +179,9 @@ RootFens == <<
   "6k1/5ppp/8/8/8/8/5PPP/R5K1 w - - 0 1",
   "7R/kp6/p7/P1P5/8/8/6B1/6K1 b - - 0 1",        \* ...b5 cxb6 e.p. is mate
   "8/6p1/7k/7P/7K/7P/8/6r1 b - - 0 1",           \* ...g5+ and hxg6 e.p. is the only reply
-  "4k3/8/8/8/1pPp4/8/8/4K3 b - c3 0 1"           \* two capturers for one en-passant square
+  "4k3/8/8/8/1pPp4/8/8/4K3 b - c3 0 1",          \* two capturers for one en-passant square
+  "b7/8/8/3Pp3/8/6k1/4n3/7K w - e6 0 1",         \* stalemate: the only en-passant capturer is pinned
+  "k2b4/4p3/8/3P4/7K/8/8/8 b - - 0 1"            \* ...e5 uncovers a check: the en-passant capture does not answer it
 >>
 RootSet ==
   LET idx  == IF Sub = 0 THEN 1..Len(RootFens) ELSE {((Sub - 1) % Len(RootFens)) + 1}
@@ -291,7 +308,7 @@ LemmasOK(p, ms) ==
   /\ (Lemmas >= 2) => Assert(Lemma2(p, ms), <<"spec lemma 2 (mirror/flip) fails at", WriteFen(p)>>)
 
 FirstPly(p, ms) ==   \* EP families: the first ply is the double push of the staged pawn
-  IF depth = 0 /\ Family \in {"EPw","EPb","EPXw","EPXb","EPALLw","EPALLb","EP2w","EP2b"} THEN {m \in ms : IsDouble(p, m)} ELSE ms
+  IF depth = 0 /\ Family \in {"EPw","EPb","EPXw","EPXb","EPALLw","EPALLb","EP2w","EP2b","EPRRw","EPRRb"} THEN {m \in ms : IsDouble(p, m)} ELSE ms
 
 Play ==
   /\ stage = Done
